@@ -50,7 +50,7 @@ type Faults struct {
 	CallbackFailAt int  `json:"callbackFailAt"`
 	BreakAt        int  `json:"breakAt"`
 	CbErrKind      int  `json:"cbErrKind,omitempty"` // which value the failing callback returns (see CallbackErr)
-	IOKind         int  `json:"ioKind,omitempty"`    // 1: the reader also implements io.WriterTo and the writer io.StringWriter (code may take other paths for them)
+	IOKind         int  `json:"ioKind,omitempty"`    // 1: the reader also implements io.WriterTo and the writer io.StringWriter (code may take other paths for them); 2: the reader is also an io.Closer; 3: a *bytes.Reader; 4: an open regular file
 	ErrKind        int  `json:"errKind,omitempty"`   // which well-known error the injected reader/writer error additionally wraps (see FaultErr)
 }
 
